@@ -45,7 +45,8 @@ def run_case(case):
     leaves, levels = rename(SHAPES[case["shape"]], RENAMES[case["rename"]])
     counts = dict(zip(leaves, case["counts"]))
     n_nan, n_unk = case["n_nan"], case["n_unknown"]
-    xs = [v for v, c in counts.items() for _ in range(c)] + ["??unknown"] * n_unk + [np.nan] * n_nan
+    unknowns = ["??unknown", "??other-unknown", "??third"][:n_unk]
+    xs = [v for v, c in counts.items() for _ in range(c)] + unknowns + [np.nan] * n_nan
     X = pd.DataFrame({"h": pd.Series(xs, dtype=object)})
     mf = case["min_freq"]
     res = {"violations": [], "sample": dict(case)}
@@ -110,16 +111,21 @@ def run_case(case):
             merged += 1
             if g not in anc_chain(v):
                 viol.append({"kind": "not-an-ancestor", "what": f"value {v!r} merged into {g!r} which is not one of its ancestors {anc_chain(v)}"})
+    for u in unknowns:
+        g = vo.get_group(u)
+        if g != vo.get_group(STR_NAN) or not vo.contains(u):
+            viol.append({"kind": "unknown-not-with-nan", "what": f"unknown value {u!r} is in group {g!r}, missing values in {vo.get_group(STR_NAN)!r}"})
     if n_unk:
-        g = vo.get_group("??unknown")
-        if g != vo.get_group(STR_NAN) or not vo.contains("??unknown"):
-            viol.append({"kind": "unknown-not-with-nan", "what": f"unknown value is in group {g!r}, missing values in {vo.get_group(STR_NAN)!r}"})
+        from .c08 import wellformed_order
+
+        for e in wellformed_order(vo)[:1]:
+            viol.append({"kind": "malformed-order", "what": f"values_orders after unknown_handling='drop': {e}"})
     # transform outputs the group leader
     try:
         with contextlib.redirect_stdout(io.StringIO()):
             out = d.transform(X)["h"].tolist()
         for xv, o in zip(xs, out):
-            if isnan(xv) or xv == "??unknown":
+            if isnan(xv) or xv in unknowns:
                 if not (isnan(o) or o == STR_NAN):
                     viol.append({"kind": "transform-nan", "what": f"missing/unknown value mapped to {o!r}"})
                     break
@@ -158,7 +164,8 @@ def enumerate_cases(tier, seed):
                         cases.append({"shape": si, "counts": list(cnt), "n_nan": n_nan, "n_unknown": 0, "min_freq": mf, "unknown_handling": "raise", "rename": (rn + seed) % 2 if False else rn})
                     if n_nan == 0 or tier == "thorough":
                         for uh in ("raise", "drop"):
-                            cases.append({"shape": si, "counts": list(cnt), "n_nan": n_nan, "n_unknown": 1, "min_freq": mf, "unknown_handling": uh, "rename": 0})
+                            for nu in (1, 2) if (tier == "thorough" or si < 2) else (1,):
+                                cases.append({"shape": si, "counts": list(cnt), "n_nan": n_nan, "n_unknown": nu, "min_freq": mf, "unknown_handling": uh, "rename": 0})
     transitions += len(cases)
     return cases, transitions
 
